@@ -89,6 +89,12 @@ where
     if !normalization.is_normal() || !normalization.is_sign_positive() {
         return Err(());
     }
+    // Reject negative (or NaN) entries up front: with a negative entry, other entries can
+    // exceed the normalization, and subtracting their share from `remaining_free_weight`
+    // below would overflow before the offending entry is reached.
+    if probabilities.iter().any(|p| !(*p >= F::zero())) {
+        return Err(());
+    }
     let scale = remaining_free_weight.into() / normalization;
 
     let mut slots = probabilities
